@@ -1,9 +1,10 @@
 (* Property C03: non-vacuity.  A small tree with three ordinary users; the hypotheses of the theorems of
    DacProofs / DacSteps hold of it (so the theorems apply), the computed outcomes show permission granted and
    refused on both sides, and the side conditions are seen to be necessary: where one fails, the two sides differ
-   (these are the listed deviations, plus one that was not listed: Chmod keeps S_ISGID for a non-member). *)
+   (these are the listed deviations, one of them - Chmod keeping S_ISGID for a non-member - found by these proofs and since fixed). *)
 From Avfs Require Import Base PathModel PathSpec PathProofs PathCleanProofs PathIterProofs.
 From Avfs Require Import MemFS MemFile World Posix WalkBridge WalkSym WalkBudget WalkReadlink StepEq DacProofs DacSteps.
+From Avfs Require Import Inv InvCheck StepInv DacInv.
 
 Module DacTree.
   Import WalkSymExamples WalkSymNonVacuity.
@@ -57,7 +58,7 @@ Module DacTree.
 
   Example dtree_links_clean : links_clean dtree.
   Proof.
-    intros i t m. unfold get.
+    intros d n i t m _. unfold get.
     do 9 (destruct i as [|i]; [cbn [nth_error dtree]; intros E; discriminate E|]).
     destruct i; discriminate.
   Qed.
@@ -76,7 +77,7 @@ Module DacTree.
     repeat constructor; try discriminate;
     let x := fresh "x" in let Hx := fresh "Hx" in
     intros x Hx; cbn in Hx; repeat (destruct Hx as [Hx|Hx]; [subst x; discriminate|]); destruct Hx.
-  Ltac path_ok_tac := split; [good_tac|split; [vm_compute; discriminate|split; vm_compute; discriminate]].
+  Ltac path_ok_tac := split; [good_tac|split; vm_compute; discriminate].
 
   (* ---- class selection: the three classes on /h/f (0640 alice:1000) -------------------------------------------- *)
   Example class_instances :
@@ -136,7 +137,7 @@ Module DacTree.
     /\ snd (k_open dfs (svu bob 18) (abs_path [n_h; n_f]) 0 0) = inr 2.
   Proof.
     split; [|vm_compute; reflexivity].
-    apply (dstep_open_nocreat dfs (svu bob 18) [n_h; n_f] 0 0 0 (dtree_hyps bob 18)); [path_ok_tac|vm_compute; reflexivity|reflexivity|discriminate].
+    apply (dstep_open_nocreat dfs (svu bob 18) [n_h; n_f] 0 0 0 (dtree_hyps bob 18)); [path_ok_tac|reflexivity|discriminate].
   Qed.
 
   Example open_bob_write_refused :
@@ -144,7 +145,7 @@ Module DacTree.
     /\ snd (k_open dfs (svu bob 18) (abs_path [n_h; n_f]) 1 0) = inl EACCES.
   Proof.
     split; [|vm_compute; reflexivity].
-    apply (dstep_open_nocreat dfs (svu bob 18) [n_h; n_f] 1 0 0 (dtree_hyps bob 18)); [path_ok_tac|vm_compute; reflexivity|reflexivity|discriminate].
+    apply (dstep_open_nocreat dfs (svu bob 18) [n_h; n_f] 1 0 0 (dtree_hyps bob 18)); [path_ok_tac|reflexivity|discriminate].
   Qed.
 
   Example open_alice_create_excl :
@@ -155,7 +156,7 @@ Module DacTree.
     /\ meta_at (f_heap (fst (open_file dfs (view_of alice 23) 0 p flag 438))) 9 = Some (mk 416 1000 1000).
   Proof.
     split; [|split; vm_compute; reflexivity].
-    apply (dstep_open_excl dfs (svu alice 23) [n_h] n_g _ 438 0 (dtree_hyps alice 23)); [path_ok_tac|vm_compute; reflexivity|reflexivity|reflexivity| |].
+    apply (dstep_open_excl dfs (svu alice 23) [n_h] n_g _ 438 0 (dtree_hyps alice 23)); [path_ok_tac|reflexivity|reflexivity| |].
     - intros par kind name n d k i m HK. vm_compute in HK. discriminate HK.
     - intros par name md HK. vm_compute in HK. injection HK as <- _ _. reflexivity.
   Qed.
@@ -232,28 +233,36 @@ Module DacTree.
     intros par kind name n HK. vm_compute in HK. injection HK as <- _ _ <-. reflexivity.
   Qed.
 
-  (* ---- Chmod: a NEW deviation (not in the list).  alice owns /e/q whose group (2000) she is not a member of; she asks
-     for mode 02644: chmod(2) drops S_ISGID, MemFS stores it ----------------------------------------------------------- *)
+  (* ---- Chmod.  alice owns /e/q whose group (2000) she is not a member of; she asks for mode 02644: chmod(2) drops
+     S_ISGID, and so does MemFS ([chmod_mode]; before the repository fix it stored the bit: this instance was the
+     witness, corpus/C03-chmod-setgid.cases is its replay against the kernel) ----------------------------------------- *)
   Definition w_alice : world := {| w_fs := dfs; w_views := [view_of alice 18]; w_handles := [] |}.
   Definition sw_alice : sworld := {| sw_fs := dfs; sw_sv := svu alice 18 |}.
 
-  Example chmod_setgid_differs :
+  Example chmod_nonmember_clears_setgid :
     let c := CChmod 0 (abs_path [n_e; n_q]) (N.lor MODE_SETGID 420) in
     snd (impl_step_proj w_alice c) = SOk /\ snd (spec_step true sw_alice c) = SOk
-    /\ meta_at (f_heap (w_fs (fst (impl_step_proj w_alice c)))) 8 = Some (mk (N.lor MODE_SETGID 420) 1000 2000)
+    /\ meta_at (f_heap (w_fs (fst (impl_step_proj w_alice c)))) 8 = Some (mk 420 1000 2000)
     /\ meta_at (f_heap (sw_fs (fst (spec_step true sw_alice c)))) 8 = Some (mk 420 1000 2000).
   Proof. vm_compute. repeat split; reflexivity. Qed.
 
-  (* on her own group's file the theorem applies and the bit is kept on both sides *)
+  (* what the implementation did without the rule: the requested mode as it is *)
+  Example chmod_without_rule_differs :
+    with_mode (mk 420 1000 2000) (N.lor MODE_SETGID 420) = mk (N.lor MODE_SETGID 420) 1000 2000
+    /\ with_mode (mk 420 1000 2000) (chmod_mode (mk 420 1000 2000) alice (N.lor MODE_SETGID 420)) = mk 420 1000 2000.
+  Proof. vm_compute. split; reflexivity. Qed.
+
+  (* on her own group's file the bit is kept on both sides *)
   Example chmod_member_setgid :
     (fst (chmod dfs (view_of alice 18) (abs_path [n_h; n_f]) (N.lor MODE_SETGID 416)),
      proj_res Linux (snd (chmod dfs (view_of alice 18) (abs_path [n_h; n_f]) (N.lor MODE_SETGID 416))))
     = k_chmod dfs (svu alice 18) (abs_path [n_h; n_f]) (N.lor MODE_SETGID 416)
-    /\ snd (k_chmod dfs (svu alice 18) (abs_path [n_h; n_f]) (N.lor MODE_SETGID 416)) = SOk.
+    /\ snd (k_chmod dfs (svu alice 18) (abs_path [n_h; n_f]) (N.lor MODE_SETGID 416)) = SOk
+    /\ meta_at (f_heap (fst (chmod dfs (view_of alice 18) (abs_path [n_h; n_f]) (N.lor MODE_SETGID 416)))) 2
+       = Some (mk (N.lor MODE_SETGID 416) 1000 1000).
   Proof.
-    split; [|vm_compute; reflexivity].
-    apply (dstep_chmod dfs (svu alice 18) [n_h; n_f] _ (dtree_hyps alice 18)); [path_ok_tac|].
-    intros par kind name n HK. vm_compute in HK. injection HK as _ _ _ <-. right. left. reflexivity.
+    split; [|split; vm_compute; reflexivity].
+    apply (dstep_chmod dfs (svu alice 18) [n_h; n_f] _ (dtree_hyps alice 18)). path_ok_tac.
   Qed.
 
   (* bob is not the owner: EPERM on both sides *)
@@ -263,8 +272,17 @@ Module DacTree.
     /\ snd (k_chmod dfs (svu bob 18) (abs_path [n_h; n_f]) 511) = SErr EPERM.
   Proof.
     split; [|vm_compute; reflexivity].
-    apply (dstep_chmod dfs (svu bob 18) [n_h; n_f] _ (dtree_hyps bob 18)); [path_ok_tac|].
-    intros par kind name n HK. right. right. reflexivity.
+    apply (dstep_chmod dfs (svu bob 18) [n_h; n_f] _ (dtree_hyps bob 18)). path_ok_tac.
+  Qed.
+
+  (* the invalid access mode 3 (O_WRONLY|O_RDWR) asks for read and write on both sides: bob (r-- on /h/f) is refused *)
+  Example open_accmode3 :
+    open_sim (open_file dfs (view_of bob 18) 0 (abs_path [n_h; n_f]) 3 0) (k_open dfs (svu bob 18) (abs_path [n_h; n_f]) 3 0)
+    /\ snd (k_open dfs (svu bob 18) (abs_path [n_h; n_f]) 3 0) = inl EACCES
+    /\ snd (k_open dfs (svu alice 18) (abs_path [n_h; n_f]) 3 0) = inr 2.
+  Proof.
+    split; [|split; vm_compute; reflexivity].
+    apply (dstep_open_nocreat dfs (svu bob 18) [n_h; n_f] 3 0 0 (dtree_hyps bob 18)); [path_ok_tac|reflexivity|discriminate].
   Qed.
 
   (* ---- a covered call at the level of worlds ----------------------------------------------------------------------- *)
@@ -278,4 +296,48 @@ Module DacTree.
     split; [exact (dtree_hyps alice 18)|]. split; [reflexivity|]. exists [n_h], n_n. split; [reflexivity|]. split; [path_ok_tac|].
     intros par name md HK. vm_compute in HK. injection HK as <- _ _. reflexivity.
   Qed.
+
+  (* ---- a history on the states of C05: [Inv] and [links_ok] hold of the tree; the premises of the later calls are
+     stated on the states the run reaches and USE the hypotheses the theorem derives there ([dcall_ok]) ------------ *)
+  Example dtree_inv : Inv w_alice.
+  Proof. apply InvCheck.inv_check_sound. vm_compute. reflexivity. Qed.
+
+  Example dtree_links_ok : links_ok (f_heap (w_fs w_alice)).
+  Proof. split; [exact dtree_links_clean|exact dtree_sym_single]. Qed.
+
+  (* alice: Mkdir /h/n 0777 ; OpenFile /h/n/g O_WRONLY|O_CREAT|O_EXCL 0666 ; Chmod /h/n/g 02600 ; Stat /h/n/g *)
+  Definition ahist : list call :=
+    [ CMkdir 0 (abs_path ([n_h] ++ [n_n])) 511;
+      COpenFile 0 (abs_path ([n_h; n_n] ++ [n_g])) (O_WRONLY + O_CREATE + O_EXCL) 438;
+      CChmod 0 (abs_path [n_h; n_n; n_g]) (N.lor MODE_SETGID 384);
+      CStat 0 (abs_path [n_h; n_n; n_g]) ].
+
+  Example ahist_ok : dcall_ok_run true 0 sw_alice ahist.
+  Proof.
+    unfold ahist. cbn [dcall_ok_run]. split; [|split; [|split; [|split; [|exact I]]]]; intros H _ _; (split; [exact H|]); (split; [reflexivity|]).
+    - exists [n_h], n_n. split; [reflexivity|]. split; [path_ok_tac|].
+      intros par name md HK. vm_compute in HK. injection HK as <- _ _. reflexivity.
+    - right. right. split; [reflexivity|]. split; [reflexivity|]. exists [n_h; n_n], n_g. split; [reflexivity|].
+      split; [path_ok_tac|]. split.
+      + intros par kind name n d k i m HK. vm_compute in HK. discriminate HK.
+      + intros par name md HK. vm_compute in HK. injection HK as <- _ _. vm_compute. reflexivity.
+    - exists [n_h; n_n; n_g]. split; [reflexivity|]. path_ok_tac.
+    - exists [n_h; n_n; n_g]. split; [reflexivity|]. path_ok_tac.
+  Qed.
+
+  Example ahist_inv :
+    Forall2 obs_sim (snd (impl_run w_alice ahist)) (snd (spec_run_phl true sw_alice ahist))
+    /\ absw (fst (impl_run w_alice ahist)) 0 (fst (spec_run_phl true sw_alice ahist))
+    /\ Inv (fst (impl_run w_alice ahist)) /\ links_ok (f_heap (w_fs (fst (impl_run w_alice ahist)))).
+  Proof. exact (dhistory_inv true 0 ahist w_alice sw_alice dtree_inv (conj eq_refl eq_refl) dtree_links_ok ahist_ok). Qed.
+
+  (* what the two runs answer (computed): the new file is alice's (0666 &^ 022 = 0644), then 02600 - she is a member
+     of its group, S_ISGID stays *)
+  Example ahist_results :
+    snd (spec_run_phl true sw_alice ahist)
+    = [ SOk; SOk; SOk;
+        SInfo {| fi_name := n_g; fi_size := 0; fi_mode := N.lor MODE_SETGID 384; fi_uid := 1000; fi_gid := 1000; fi_nlink := 1; fi_id := 5 |} ]
+    /\ snd (impl_run w_alice ahist) = snd (spec_run_phl true sw_alice ahist)
+    /\ w_fs (fst (impl_run w_alice ahist)) = sw_fs (fst (spec_run_phl true sw_alice ahist)).
+  Proof. vm_compute. repeat split; reflexivity. Qed.
 End DacTree.
